@@ -7,6 +7,7 @@ import z3
 
 from .engine import Raised, is_raised, mkbool, mkint, mkstr
 from .values import (
+    U,
     STR,
     NONE,
     NORMAL,
@@ -153,6 +154,23 @@ def store_subscript(eng, st, cont, key, v, node):
         if isinstance(o, ListObj):
             if isinstance(key, Z) and key.kind == "int" and z3.is_int_value(z3.simplify(key.t)):
                 i = z3.simplify(key.t).as_long()
+                if i >= 0 and o.lower is not None:
+                    # a non-negative index counts from the BOTTOM: with a non-empty (symbolic) lower part it lands there, not in the explicit items on top
+                    outs = []
+                    below = st.fork(o.lower[1], "list-store:into-lower-part")
+                    if eng.feasible(below.pc):
+                        below.put(cont, o.with_(lower=(o.lower[0] + "*written", o.lower[1], z3.FreshConst(U, "lower_after_store"))))
+                        outs.append((below, NORMAL))
+                    top = st.fork(z3.Not(o.lower[1]), "list-store:lower-part-empty")
+                    if eng.feasible(top.pc):
+                        if i < len(o.items):
+                            items = list(o.items)
+                            items[i] = v
+                            top.put(cont, o.with_(items=items))
+                            outs.append((top, NORMAL))
+                        else:
+                            outs.append((top, Outcome("raise", Exc("IndexError", origin="list store"))))
+                    return outs
                 if -len(o.items) <= i < len(o.items):
                     s1 = st.clone()
                     items = list(o.items)
